@@ -298,6 +298,14 @@ def run_region(fn, start, stop_blocks, env, events=None, max_steps=5000, call_ho
             if k == "decl":
                 for v in e.get("vars", []):
                     if v.get("init") is not None:
+                        ini = v["init"]
+                        if isinstance(ini, dict) and ini.get("k") == "init" and env.get("$dyn"):
+                            for q, el in enumerate(ini.get("elems", [])):      # int a[3] = {1, 1, 1}
+                                try:
+                                    env["%s[%d]" % (v["n"], q)] = evs(el, env, events)
+                                except Unsupported:
+                                    env.pop("%s[%d]" % (v["n"], q), None)
+                            continue
                         try:
                             env[v["n"]] = evs(v["init"], env, events)
                         except Unsupported:
